@@ -26,6 +26,8 @@ fn p2_scenarios(thorough: bool) -> Vec<p2::Scenario> {
         sc("many1_pre_drop", vec![Many], vec![(0, 1)], 1, vec![vec![(0, Drop)]]),
         sc("many2_pre_resolve_other", vec![Many, Many], vec![(0, 1)], 1, vec![vec![(1, Resolve(5))]]),
         sc("many_once_pre_resolve_once", vec![Many, Once], vec![(0, 1)], 1, vec![vec![(1, Resolve(7))]]),
+        sc("once_drop", vec![Once], vec![], 1, vec![vec![(0, Drop)]]),
+        sc("many_once_drop_once", vec![Many, Once], vec![(0, 1)], 1, vec![vec![(1, Drop)]]),
         sc("many1_nopre_resolve", vec![Many], vec![], 1, vec![vec![(0, Resolve(2))]]),
         sc("many1_pre_resolve_drop", vec![Many], vec![(0, 1)], 1, vec![vec![(0, Resolve(2)), (0, Drop)]]),
     ];
